@@ -39,35 +39,69 @@ def parse_opcodes():
     if not m:
         raise ExtractError("opcode.rs: from_u8 not found")
     body = " ".join(m.group(1).split())
-    mm = re.fullmatch(r"if byte <= (?:Self::([A-Za-z0-9]+) as u8|([0-9]+)) \{ Some\(unsafe \{ std::mem::transmute::<u8, OpCode>\(byte\) \}\) \} else \{ None \}", body)
+    mm = re.fullmatch(r"if (.*?) \{ Some\(unsafe \{ std::mem::transmute::<u8, OpCode>\(byte\) \}\) \} else \{ None \}", body)
     if not mm:
-        raise ExtractError("opcode.rs: from_u8 is no longer `if byte <= Self::X as u8 { Some(transmute(byte)) } else { None }` "
-                           "(if it now matches on the valid discriminants, KF-C04-3 is repaired: update Model/Verifier.v decode)")
+        raise ExtractError("opcode.rs: from_u8 is no longer `if <ranges of byte> { Some(transmute(byte)) } else { None }`")
     names = dict(ops)
-    if mm.group(2) is not None:
-        if int(mm.group(2)) > 255:
-            raise ExtractError("opcode.rs: from_u8 bound above 255")
-        return ops, int(mm.group(2)), src
-    if mm.group(1) not in names:
-        raise ExtractError(f"opcode.rs: from_u8 bound {mm.group(1)} is not a variant")
-    return ops, names[mm.group(1)], src
+
+    def val(t):
+        t = t.strip()
+        m2 = re.fullmatch(r"Self::([A-Za-z0-9]+) as u8", t)
+        if m2:
+            if m2.group(1) not in names:
+                raise ExtractError(f"opcode.rs: from_u8 mentions {m2.group(1)}, which is not a variant")
+            return names[m2.group(1)]
+        if re.fullmatch(r"[0-9]+", t):
+            if int(t) > 255:
+                raise ExtractError("opcode.rs: from_u8 bound above 255")
+            return int(t)
+        raise ExtractError(f"opcode.rs: from_u8: unrecognised bound {t!r}")
+    ranges = []
+    for alt in mm.group(1).split("||"):
+        alt = alt.strip()
+        if alt.startswith("(") and alt.endswith(")"):
+            alt = alt[1:-1].strip()
+        m1 = re.fullmatch(r"byte <= (.+)", alt)
+        m2 = re.fullmatch(r"byte >= (.+?) && byte <= (.+)", alt)
+        if m2:
+            ranges.append((val(m2.group(1)), val(m2.group(2))))
+        elif m1 and "&&" not in alt:
+            ranges.append((0, val(m1.group(1))))
+        else:
+            raise ExtractError(f"opcode.rs: from_u8: unrecognised condition {alt!r}")
+    return ops, ranges, src
 
 
 @extract.register("OpcodeNumbering")
 def gen_opcodes():
-    ops, bound, src = parse_opcodes()
+    ops, ranges, src = parse_opcodes()
     disc = sorted(v for _, v in ops)
-    gaps = [b for b in range(0, bound + 1) if b not in set(disc)]
-    out = [HEADER.format(src=src), "From Coq Require Import NArith List String.\nImport ListNotations.\nLocal Open Scope N_scope.\nLocal Open Scope string_scope.\n"]
+    accepted = [b for b in range(256) if any(lo <= b <= hi for lo, hi in ranges)]
+    gaps = [b for b in accepted if b not in set(disc)]
+    out = [HEADER.format(src=src), "From Coq Require Import NArith Bool List String.\nImport ListNotations.\nLocal Open Scope N_scope.\nLocal Open Scope string_scope.\n"]
     out.append("Definition opcode_names : list (N * string) := [\n  " +
                ";\n  ".join(f'({v}, "{n}")' for n, v in ops) + "].\n")
     out.append("(* every declared discriminant *)\nDefinition discriminants : list N := [" + "; ".join(str(v) for v in disc) + "].\n")
-    out.append(f"(* from_u8 transmutes every byte <= this bound *)\nDefinition from_u8_bound : N := {bound}.\n")
+    out.append("(* from_u8 returns Some (transmutes) exactly for bytes in one of these inclusive ranges *)\n"
+               "Definition from_u8_ranges : list (N * N) := [" + "; ".join(f"({lo}, {hi})" for lo, hi in ranges) + "].\n")
+    out.append("Definition from_u8_accepts (b : N) : bool := existsb (fun r : N * N => andb (N.leb (fst r) b) (N.leb b (snd r))) from_u8_ranges.\n")
     out.append("(* bytes from_u8 accepts that are not discriminants *)\nDefinition gap_bytes : list N := [" + "; ".join(str(v) for v in gaps) + "].\n")
     out.append("Definition is_discriminant (b : N) : bool := existsb (N.eqb b) discriminants.\n")
     for n, v in ops:
         out.append(f"Definition OP_{n} : N := {v}.\n")
     return write_if_changed("OpcodeNumbering.v", "".join(out))
+
+
+def gap_range():
+    """(lo, hi) of the bytes from_u8 accepts without being discriminants, or None; ExtractError if not contiguous."""
+    ops, ranges, _ = parse_opcodes()
+    disc = {v for _, v in ops}
+    gaps = [b for b in range(256) if any(lo <= b <= hi for lo, hi in ranges) and b not in disc]
+    if not gaps:
+        return None
+    if gaps != list(range(gaps[0], gaps[-1] + 1)):
+        raise ExtractError("from_u8 gap bytes are not one contiguous range")
+    return gaps[0], gaps[-1]
 
 
 # ------------------------------------------------------------------------------------ verifier
@@ -141,7 +175,7 @@ def parse_checks(block, where):
         if m:
             out.append("CUpval" + m.group(1).upper())
             continue
-        if re.fullmatch(r'verify_jump\(ip, imm, bytecode_len, "[^"]*"\)\?', st):
+        if re.fullmatch(r'verify_jump\(ip, imm, bytecode_len, (starts, )?"[^"]*"\)\?', st):
             out.append("CJump")
             continue
         m = re.fullmatch(r'verify_reg_range\(a, ([0-9]+), num_regs, "[^"]*"\)\?', st)
@@ -194,12 +228,27 @@ def parse_verifier():
         raise ExtractError("verifier/bytecode/mod.rs: fallthrough is no longer `unhandled opcode` error")
     # helpers must still delegate 1:1 to checks.rs
     for h, c in [("verify_call_args", "check_reg(base_reg, num_regs, op)?; check_call_args(base_reg, nargs, num_regs, op)"),
-                 ("verify_const", "check_const_index(idx, constants_len, op)"), ("verify_jump", "check_jump(ip, imm, bytecode_len, op)"),
+                 ("verify_const", "check_const_index(idx, constants_len, op)"),
                  ("verify_reg", "check_reg(reg, num_regs, op)"), ("verify_upval", "check_upval_index(idx, upvalues_len, op)"),
                  ("verify_reg_range", "check_reg_range(base, count, num_regs, op)")]:
         if not re.search(r"fn %s\([^)]*\) -> Result<\(\), String> \{ %s \}" % (h, re.escape(c)), t):
             raise ExtractError(f"verifier/bytecode/mod.rs: helper {h} no longer delegates to {c}")
     checks = " ".join(strip_comments(rd(base + "checks.rs")).split())
+    # jump targets: range only (old) or range + instruction start of the linear layout (new); all three places must agree
+    starts_pass = ("let mut starts = vec![false; bytecode.len() + 1]; let mut pos = 0; while pos < bytecode.len() { starts[pos] = true; "
+                   "let op = (bytecode[pos] >> 24) as u8; let has_cache_words = " +
+                   " || ".join(f"op == OpCode::{n} as u8" for n in skip) +
+                   "; pos += if has_cache_words { 3 } else { 1 }; } starts[bytecode.len()] = true;") in t
+    helper_new = re.search(r"fn verify_jump\([^)]*\) -> Result<\(\), String> \{ check_jump\(ip, imm, bytecode_len, starts, op\) \}", t) is not None
+    helper_old = re.search(r"fn verify_jump\([^)]*\) -> Result<\(\), String> \{ check_jump\(ip, imm, bytecode_len, op\) \}", t) is not None
+    check_new = "if !starts.get(target as usize).copied().unwrap_or(false) { return Err(" in checks
+    uses_starts = "starts" in t or "starts" in checks
+    if starts_pass and helper_new and check_new:
+        jump_grid = True
+    elif helper_old and not uses_starts:
+        jump_grid = False
+    else:
+        raise ExtractError("verifier: jump-target check shape not recognised (instruction-start table, verify_jump helper and check_jump must agree)")
     shapes = {
         "check_reg": "if reg >= num_regs { return Err(",
         "check_reg_range": "if count == 0 { return Ok(()); } let last = base .checked_add(count - 1)",
@@ -241,14 +290,14 @@ def parse_verifier():
                 if n not in table:      # first category that handles the opcode wins
                     table[n] = (cks, inc != "1" and n in skip)
                     order.append(n)
-    return table, order, skip, max_nesting
+    return table, order, skip, max_nesting, jump_grid
 
 
 @extract.register("VerifierTable")
 def gen_verifier_table():
-    ops, _bound, _ = parse_opcodes()
+    ops, _ranges, _ = parse_opcodes()
     names = dict(ops)
-    table, order, skip, max_nesting = parse_verifier()
+    table, order, skip, max_nesting, jump_grid = parse_verifier()
     for n in table:
         if n not in names:
             raise ExtractError(f"verifier handles {n}, which is not an OpCode variant")
@@ -261,6 +310,8 @@ def gen_verifier_table():
            "Inductive chk := CRegA | CRegB | CRegC | CConstB | CConstImm | CUpvalA | CUpvalB | CJump\n"
            "  | CRangeA (n : N) | CRangeBC | CCallArgsA | CCallArgsB | CCacheWords | CMakeClosure.\n",
            f"Definition MAX_FUNCTION_NESTING : N := {max_nesting}.\n",
+           "(* check_jump also requires the target to be an instruction start of the linear layout (or the end of the stream) *)\n"
+           f"Definition jump_grid_checked : bool := {'true' if jump_grid else 'false'}.\n",
            "(* opcodes after which the linear scan skips two cache words *)\n"
            "Definition skip_opcodes : list N := [" + "; ".join(str(names[n]) for n in skip) + "].\n",
            "(* opcode byte -> (checks, words the scan advances); a byte without entry is `unhandled opcode` *)\n"
@@ -336,7 +387,9 @@ def parse_dispatch():
             raise ExtractError(f"dispatch: opcode {op}: cache word reads not recognised")
         offs = [1 if r.group(1) else 0 for r in reads]
         pre = b[:reads[0].start()]
-        guarded = "bytecode_len" in pre
+        guarded = re.search(r"if ip \+ 1 >= bytecode_len \{ [^{}]*return Err\(", pre) is not None
+        if "bytecode_len" in pre and not guarded:
+            raise ExtractError(f"dispatch: opcode {op}: a bytecode_len test precedes the cache-word reads but is not `if ip + 1 >= bytecode_len {{ .. return Err(`")
         writes = sorted(set(re.findall(r"\*mut_ptr\.add\((ip(?: [+-] [0-9]+)?)\) =", b)))
         oldrd = sorted(set(re.findall(r"= \*mut_ptr\.add\((ip(?: [+-] [0-9]+)?)\);", b)))
         adv = re.findall(r"ip \+= 2;", b)
@@ -347,18 +400,19 @@ def parse_dispatch():
                          patch_guard_ip3=("if ip < 3 {" in b))
     # 4. constant sites
     cs = {}
-    for op, fn, var, idxdef in [(2, "load_store.inc", "k", "let k = imm as u16 as usize;"),
-                                (24, "globals.inc", "name_index", "let name_index = imm as u16 as usize;"),
-                                (25, "globals.inc", "name_index", "let name_index = imm as u16 as usize;"),
-                                (35, "closures.inc", "const_idx as usize", "let (dest, const_idx, num_upvalues) = decode_abc(instr);")]:
+    for op, fn, var, idxdefs in [(2, "load_store.inc", "k", {"let k = imm as u16 as usize;": "imm"}),
+                                 (24, "globals.inc", "name_index", {"let name_index = imm as u16 as usize;": "imm", "let (a, k, _) = decode_abc(instr); let name_index = k as usize;": "b"}),
+                                 (25, "globals.inc", "name_index", {"let name_index = imm as u16 as usize;": "imm", "let (a, k, _) = decode_abc(instr); let name_index = k as usize;": "b"}),
+                                 (35, "closures.inc", "const_idx as usize", {"let (dest, const_idx, num_upvalues) = decode_abc(instr);": "b"})]:
         b = norm(inc_arm(files.get(fn, ""), op, fn))
         acc = f"unsafe {{ *constants_ptr.add({var}) }}"
-        if b.count(acc) != 1 or idxdef not in b:
+        kinds = [k for d, k in idxdefs.items() if d in b]
+        if b.count(acc) != 1 or len(kinds) != 1:
             raise ExtractError(f"{fn}: opcode {op}: constant access shape changed")
         pre = b[:b.find(acc)]
         gv = var if op != 35 else "(const_idx as usize)"
         guarded = (f"if {gv} >= constants_len {{" in pre) and "return Err(" in pre[pre.find(f"if {gv} >= constants_len"):]
-        cs[op] = (("imm" if op != 35 else "b"), guarded)
+        cs[op] = (kinds[0], guarded)
     all_const = sum(t.count("constants_ptr.add(") for t in files.values())
     if all_const != 4:
         raise ExtractError(f"dispatch: expected 4 raw constant accesses, found {all_const}")
@@ -406,7 +460,10 @@ def parse_dispatch():
         for m in re.finditer(r"(?<![.\w])constants_ptr = ([a-z_.]+);( constants_len = [a-z_.]+;)?", b):
             closure = b[m.end():m.end() + 80]
             kind = 0 if "upvalues_ptr = std::ptr::null();" in closure else 1     # 0 = plain function, 1 = closure
-            upd.append((op, kind, m.group(2) is not None))
+            refreshed = m.group(2) is not None
+            if op == 81:    # the tail call rewrites the current frame in place: its own constants_len must follow too
+                refreshed = refreshed and b.count("frame.constants_ptr = const_ptr; frame.constants_len = const_len;") == b.count("frame.constants_ptr = const_ptr;") > 0
+            upd.append((op, kind, refreshed))
     ret = norm(inc_arm(calls, 22, "calls.inc")) + norm(inc_arm(calls, 23, "calls.inc"))
     ret_ok = ret.count("constants_ptr = caller_const_ptr; constants_len = caller_const_len;") == 2
     return dict(fetch_guarded=fetch_guarded, reg_guarded=reg_guarded and raw_reg_uses == 0, sites=sites, cs=cs, us=us,
